@@ -246,6 +246,17 @@ TRUSTED_BASE = [
 ]
 
 
+def run_translator(chk, script, *args):
+    """runs a source->Lean translator of harness/ against the repo under test; a refusal is a broken proof obligation"""
+    import subprocess
+    tr = subprocess.run(['/venv/bin/python', str(VERIF / 'harness' / script), '--repo', str(REPO), '--quiet'] + list(args),
+                        capture_output=True, text=True)
+    if tr.returncode != 0:
+        chk.proof_broken.append({'theorem': 'translator (harness/%s %s) refused the source' % (script, ' '.join(args)),
+                                 'log': (tr.stdout + tr.stderr)[-800:]})
+    return tr.returncode == 0
+
+
 class Check:
     def __init__(self, pid, tier='quick', seed=0, level='proof', replay=None):
         self.pid, self.tier, self.seed, self.level, self.replay = pid, tier, seed, level, replay
